@@ -24,8 +24,46 @@ fn several_matches(ctx: &mut Ctx) {
     }
 }
 
+/// the same product seen from the WebAuthn caller: `Client::register` / `Client::authenticate` turn
+/// `userVerification` into the uv option (passkey-client/src/lib.rs)
+fn through_the_client(ctx: &mut Ctx) {
+    use crate::cl::*;
+    let answers: [Result<(bool, bool), u8>; 6] = [Ok((false, false)), Ok((true, false)), Ok((false, true)), Ok((true, true)), Err(0x27), Err(0x2F)];
+    let site = "https://www.example.com";
+    for is_reg in [true, false] {
+        for uvr in [UvR::Required, UvR::Preferred, UvR::Discouraged] {
+            for verification in [None, Some(false), Some(true)] {
+                for presence_enabled in [false, true] {
+                    for answer in answers {
+                        for present in [false, true] {
+                            let kind = if present && !is_reg { Kind::RefFull } else { [Kind::RefFull, Kind::Map][ctx.rng.below(2) as usize] };
+                            let w = World { kind, counter_on: true, id_len: 16, hm: Hm::None, preload: vec![] };
+                            let uvs = UvState { presence_enabled, verification, answer };
+                            let mut steps = vec![];
+                            if present { steps.push(cstep(COp::Reg(simple_reg(ctx, site, Some("example.com"))))); }
+                            if is_reg {
+                                let mut r = simple_reg(ctx, site, Some("example.com"));
+                                r.sel = Some(Sel { rk: None, rrk: false, uv: uvr });
+                                if present { r.exclude = None; }
+                                steps.push(CStep { op: COp::Reg(r), uv: uvs, faults: vec![] });
+                            } else {
+                                let mut a = simple_auth(ctx, site, Some("example.com")); a.uv = uvr;
+                                if present { a.allow_last = ctx.rng.bool(); }
+                                steps.push(CStep { op: COp::Auth(a), uv: uvs, faults: vec![] });
+                            }
+                            run_ccase(ctx, "C04", &w, &steps);
+                            ctx.stat("c04.client_rows");
+                        }
+                    }
+                }
+            }
+        }
+    }
+}
+
 pub fn gen(ctx: &mut Ctx) {
     several_matches(ctx);
+    through_the_client(ctx);
     let answers: [Result<(bool, bool), u8>; 7] = [Ok((false, false)), Ok((true, false)), Ok((false, true)), Ok((true, true)), Err(0x27), Err(0x2F), Err(0x3B)];
     let verifs = [None, Some(false), Some(true)];
     let mut row = 0u32;
@@ -55,7 +93,7 @@ pub fn gen(ctx: &mut Ctx) {
                                     g.allow = Some(vec![cred_id.clone()]);
                                     Op::Get(g)
                                 };
-                                run_case_tw(ctx, "C04", &w, &[Step { op, uv: uvs, faults: vec![], cancel_after: None }], &format!("r{}", row));
+                                run_case_tw(ctx, "C04", &w, &[Step { op, uv: uvs, faults: vec![], cancel_after: None, hold_polls: 0 }], &format!("r{}", row));
                                 ctx.stat("c04.rows");
                             }
                         }
